@@ -122,14 +122,18 @@ def exactImport (r : RelImport) (cls : Name) : RelImport :=
 
 /-- The import `__change_from_import` appends for a model of module `cur` that refers to class
 `cls` of module `refPath`: `relative`, made exact under `--use-exact-imports` and always for a
-base class, one more dot when the importer was decided to be a package `__init__`. -/
+base class; one more dot when the importer was decided to be a package `__init__` — unless the
+importee lies below that package (`f"{importee}.".startswith(f"{importer}.")`: `relative` already
+answers with the single dot that addresses the package's own sub-modules). On dotted strings the
+test is never true for an importer with the empty module name (`"."` is no prefix of `"a."`);
+the root is processed with `init = False` anyway. -/
 def emitted (cur : MPath) (codeInit exact isBase : Bool) (refPath : MPath) (cls : Name) :
     Option RelImport :=
   match relative cur refPath cls with
   | none => none
   | some r =>
     let r := if exact || isBase then exactImport r cls else r
-    some { r with dots := r.dots + (if codeInit then 1 else 0) }
+    some { r with dots := r.dots + (if codeInit && !(!cur.isEmpty && cur.isPrefixOf refPath) then 1 else 0) }
 
 /-- the module a structured import designates, by Python's rule, from the importer's location -/
 def designated (importer : MPath) (pyInit : Bool) (r : RelImport) : Option MPath :=
